@@ -58,6 +58,12 @@ pub(crate) fn typecheck_num_bin_op(lhs: NumTy, op: TypingBinOp, rhs: &TyBasic) -
         return None;
     };
 
+    if let (NumTy::Int, TypingBinOp::Mul, NumRhsTy::Any) = (&lhs, op, &rhs) {
+        // `int * x` is also defined for strings, lists and tuples,
+        // so nothing is known about the result when `x` is unknown.
+        return Some(Ty::any());
+    }
+
     let op = match op {
         TypingBinOp::Add
         | TypingBinOp::Sub
